@@ -108,6 +108,51 @@ class RunTimeout(BaseException):
     pass
 
 
+class ThreadHop:
+    """n persistent helper threads. run(k, thunk) executes thunk() on helper k while the caller waits for it: strict hand-over,
+    never two threads running at once, so WHICH thread issues an operation is decided by the scenario and nothing else."""
+
+    def __init__(self, n):
+        import queue
+        import threading
+        self.n = n
+        self._idents = set()
+        self._inbox = [queue.SimpleQueue() for _ in range(n)]
+        self._outbox = queue.SimpleQueue()
+        self._threads = []
+        for i in range(n):
+            t = threading.Thread(target=self._loop, args=(i,), name=f"verif-caller-{i}", daemon=True)
+            t.start()
+            self._threads.append(t)
+
+    def _loop(self, i):
+        import threading
+        self._idents.add(threading.get_ident())
+        while True:
+            thunk = self._inbox[i].get()
+            if thunk is None:
+                return
+            try:
+                self._outbox.put((True, thunk()))
+            except BaseException as e:      # handed back to the waiting caller, traceback and all
+                self._outbox.put((False, e))
+
+    def inside(self):
+        import threading
+        return threading.get_ident() in self._idents
+
+    def run(self, k, thunk):
+        self._inbox[k].put(thunk)
+        ok, v = self._outbox.get()
+        if ok:
+            return v
+        raise v
+
+    def close(self):
+        for q in self._inbox:
+            q.put(None)
+
+
 class Ctx:
     """Per-run recorder. seq is the global event sequence number."""
 
@@ -128,6 +173,8 @@ class Ctx:
         self.callstyle = "as-written"   # or "positional": keyword arguments are passed by position where the signature allows
         self.cleanups = []      # callables run after the scenario, whatever its outcome (e.g. StepGate.abandon)
         self.in_step = False    # True while the harness thread operates inside a parked timestep (simkit.stepgate)
+        self.hop = None         # ThreadHop: operations are issued from several caller threads, strictly one at a time
+        self.hop_rng = None
 
     def event(self, *items):
         self.seq += 1
@@ -167,6 +214,10 @@ class Ctx:
         if k and self.callstyle == "positional":
             a, k = positional(fn, a, k)
         try:
+            if self.hop is not None and not self.hop.inside():
+                who = self.hop_rng.randrange(self.hop.n + 1)       # 0: the harness thread itself
+                if who:
+                    return ("ok", self.hop.run(who - 1, lambda: fn(*a, **k)))
             return ("ok", fn(*a, **k))
         except (RunTimeout, Violation, HarnessError):
             raise   # raised by a harness callback running inside the operation (e.g. a disk-event invariant)
@@ -270,6 +321,13 @@ def execute(mod, scenario, keep_trace=False):
     if isinstance(scenario, dict) and scenario.get("callstyle") == "positional":
         ctx.callstyle = "positional"
         ctx.probe("keyword_arguments_passed_by_position")
+    if isinstance(scenario, dict) and scenario.get("threads"):
+        th = scenario["threads"]
+        ctx.hop = ThreadHop(int(th["n"]))
+        ctx.hop_rng = random.Random(int(th["seed"]))
+        ctx.cleanups.append(ctx.hop.close)
+        ctx.fault("schedule.caller_thread_changes")
+        ctx.probe("operations_issued_from_several_caller_threads")
     try:
         try:
             mod.execute(scenario, ctx)
@@ -374,6 +432,11 @@ def generate(mod, verif_seed, index, tier):
     if isinstance(sc, dict) and "callstyle" not in sc:
         # harness-level dimension, drawn from a stream of its own: how the harness spells its calls (see Ctx.call)
         sc["callstyle"] = "positional" if random.Random(run_seed(verif_seed, mod.PROPERTY + "/callstyle", index)).random() < 0.3 else "as-written"
+    if isinstance(sc, dict) and "threads" not in sc and getattr(mod, "CALLER_THREADS", True):
+        # harness-level dimension, stream of its own: the operations of one history are issued by 2-4 caller threads in turn
+        # (strictly one at a time, the choice drawn from the seed below) - sequential use from several threads is ordinary use
+        r_ = random.Random(run_seed(verif_seed, mod.PROPERTY + "/threads", index))
+        sc["threads"] = {"n": r_.randint(1, 3), "seed": r_.randrange(2 ** 32)} if r_.random() < 0.15 else None
     # round-trip through canonical JSON: what is executed is exactly what a replay file holds
     return json.loads(canon(sc))
 
